@@ -827,6 +827,12 @@ func (d *decoder) processTextRegion(hdr *segmentHeader, data []byte) error {
 			subsumed = subsumedBy[refNum]
 		}
 		if !subsumed {
+			// symbol IDs have at most maxIAIDCodeLen bits; a list of referred
+			// segments which names a dictionary over and over is refused
+			// before the symbols are gathered, not after
+			if len(symbols)+len(ref.symbols) > 1<<maxIAIDCodeLen {
+				return fmt.Errorf("more than %d symbols in referred segments", 1<<maxIAIDCodeLen)
+			}
 			symbols = append(symbols, ref.symbols...)
 		}
 	}
